@@ -693,7 +693,9 @@ def diff_flags(a, b, flags=None):
             and len(a[1][0]) == 2 and isinstance(a[1][0][0], str):
         fa, fb = dict(a[1]), dict(b[1])
         if ka and ka == kb and fa.get("func") == fb.get("func"):
-            flags.add(ka)                       # same helper on both sides encloses the difference
+            # same helper on both sides encloses the difference (the boolop wrapper does not make its operands commands)
+            if _helper_name(a) != "subproc_check_boolop" and a[0] != "Expr":
+                flags.add(ka)
         elif ka or kb:
             if ka:
                 flags.add(ka)
